@@ -4,7 +4,7 @@ import itertools
 import numpy as np
 
 from . import _rfa as R
-from .. import gen
+from .. import callform, gen
 from ..core import fp_watch
 from ..models import domain_ops as D
 
@@ -83,8 +83,11 @@ def pick_bounds(rng, x):
     span = float(x[-1] - x[0])
 
     def one(side):
-        t = int(rng.integers(0, 6))
+        t = int(rng.integers(0, 7))
         i = int(rng.integers(0, n))
+        if t == 6:
+            # both bounds are mandatory: an infinite bound is how "open on this side" is asked for
+            return (-np.inf if side == 0 else np.inf), bool(rng.integers(0, 4) == 0)
         if t == 0:
             return float(x[i]), False
         if t == 1:
@@ -145,7 +148,9 @@ def run_random_case(ctx, kind_, idx):
                 xin, _k = gen.as_container(rng, x, allow=("array", "list", "int", "strided", "readonly", "tuple"))
                 yin, _k2 = gen.as_container(rng, y, allow=("array", "list", "int", "strided", "readonly", "tuple"))
                 info.update({"left": l, "right": r, "ratios": [lr, rr]})
-                gx, gy = truncate(xin, yin, l, r) if not (lr or rr) and rng.integers(0, 2) else truncate(xin, yin, l, r, lr, rr)
+                gx, gy = truncate(xin, yin, l, r) if not (lr or rr) and rng.integers(0, 2) else \
+                    callform.call(rng, truncate, "process.truncate", [xin, yin, l, r],
+                                  {"x_left_as_ratio": lr, "x_right_as_ratio": rr}, p_pos=0.5)
                 ctx.judged()
                 ctx.monitor("c11:truncate")
                 i, j, _a, _b = D.truncate_bounds([float(v) for v in x], l, r, lr, rr)
@@ -198,7 +203,9 @@ def run_random_case(ctx, kind_, idx):
                         (np.array([float(l)]), np.array([float(r)]))
                     info["bounds_as_arrays"] = True
                 l, r = la_, ra_
-                wv.truncate_by_value(l, r) if not (lr or rr) and rng.integers(0, 2) else wv.truncate_by_value(l, r, lr, rr)
+                wv.truncate_by_value(l, r) if not (lr or rr) and rng.integers(0, 2) else \
+                    callform.call(rng, wv.truncate_by_value, "Weaver.truncate_by_value", [l, r],
+                                  {"x_left_as_ratio": lr, "x_right_as_ratio": rr}, p_pos=0.5)
                 if info.get("bounds_as_arrays"):
                     if float(np.ravel(l)[0]) != info["left"] or float(np.ravel(r)[0]) != info["right"]:
                         ctx.judged()
@@ -231,7 +238,8 @@ def run_random_case(ctx, kind_, idx):
                     gx, gy = wv.slice_by_value()
                     st = 1
                 else:
-                    gx, gy = wv.slice_by_value(start, stop, st)
+                    gx, gy = callform.call(rng, wv.slice_by_value, "Weaver.slice_by_value", [],
+                                           {"start": start, "stop": stop, "step": st}, p_pos=0.6)
                 ctx.judged()
                 ctx.monitor("c11:slice_by_value")
                 lo = float(x[0]) if start is None else start
@@ -253,14 +261,18 @@ def run_random_case(ctx, kind_, idx):
                     start, stop, st = 0, None, 1                 # documented defaults
                     info["defaults"] = True
                 if mode == "slice_index":
-                    gx, gy = wv.slice_by_index() if info.get("defaults") else wv.slice_by_index(start, stop, st)
+                    gx, gy = wv.slice_by_index() if info.get("defaults") else \
+                        callform.call(rng, wv.slice_by_index, "Weaver.slice_by_index", [],
+                                      {"start": start, "stop": stop, "step": st}, p_pos=0.6)
                     ctx.judged()
                     ctx.monitor("c11:slice_by_index")
                     if not (eq(gx, x[start:stop:st]) and eq(gy, y[start:stop:st])):
                         ctx.violation("slice_by_index", cid, {"got_x": gx, "want_x": x[start:stop:st], "case": info})
                         return
                 else:
-                    wv.truncate_by_index() if info.get("defaults") else wv.truncate_by_index(start, stop)
+                    wv.truncate_by_index() if info.get("defaults") else \
+                        callform.call(rng, wv.truncate_by_index, "Weaver.truncate_by_index", [],
+                                      {"start": start, "stop": stop}, p_pos=0.6)
                     ctx.judged()
                     ctx.monitor("c11:truncate_by_index")
                     for name, (gx, gy) in (("working", wv.get()), ("reference", wv.get_reference())):
